@@ -69,9 +69,22 @@ func (s *vSink) sink(err error, fixed bool) {
 	}
 }
 
-func (env *vEnv) checkIntegrity(fix bool) (*vSink, error) {
+func (env *vEnv) checkIntegrity(fix bool) (*vSink, error) { return env.checkIntegrityW(fix, false) }
+
+// writeFirst: the same transaction first creates and deletes a scratch entity,
+// so the index buckets have already been written to when the check runs
+func (env *vEnv) checkIntegrityW(fix bool, writeFirst bool) (*vSink, error) {
 	s := &vSink{}
 	err := env.db.Update(NewMutateContext(context.Background()), func(ctx MutateContext) error {
+		if writeFirst {
+			scratch := &vEmp{Id: "zscratch", Name: "~scratch", Roles: []string{"r1", "r2"}}
+			if err := env.emp.Create(ctx, scratch); err != nil {
+				return err
+			}
+			if err := env.emp.DeleteById(ctx, scratch.Id); err != nil {
+				return err
+			}
+		}
 		if err := env.emp.CheckIntegrity(ctx, fix, s.sink); err != nil {
 			return err
 		}
@@ -108,7 +121,13 @@ const (
 // clean; with one (quick) corruption of any class injected below the API,
 // check mode reports it and changes nothing, fix mode repairs it so that a
 // re-check is clean and the indexes mirror the entities again.
-func verifC09(corrupt bool) {
+func verifC09(corrupt bool) { verifC09P(corrupt, true, false) }
+
+// symPop: names, roles, references and links of the population are symbolic
+// (else one fixed population); pair: a second corruption is injected next to
+// the first one (a ghost entry of any of the four families, with a key adjacent
+// to the first ghost's key where the families coincide)
+func verifC09P(corrupt, symPop, pair bool) {
 	cfg := vStoreCfg{nickNullable: true, fk: vFkIndexNullable, fkToDept: true, links: true}
 	env := verifNewEnv(cfg)
 	defer env.close()
@@ -121,17 +140,24 @@ func verifC09(corrupt bool) {
 	for e := 0; e < 2; e++ {
 		sp.emp[e] = true
 		links.emp[e] = true
-		names[e] = verifrt.String("name", 1)
-		if e == 1 {
-			verifrt.Assume(names[0] != names[1])
+		if symPop {
+			names[e] = verifrt.String("name", 1)
+			if e == 1 {
+				verifrt.Assume(names[0] != names[1])
+			}
+		} else {
+			names[e] = "N" + vIds[e]
 		}
 		// emp a is fixed (role r1, references x); emp b varies
 		if e == 0 {
 			roles[e] = [2]bool{true, false}
 			sp.boss[e] = 0
-		} else {
+		} else if symPop {
 			roles[e] = [2]bool{true, verifrt.Bool("r2")}
 			sp.boss[e] = verifrt.Choose("boss", 3) - 1
+		} else {
+			roles[e] = [2]bool{true, true}
+			sp.boss[e] = 1
 		}
 		if e == 1 && !corrupt {
 			nicks[e] = verifSymOptString("nick", 1) // nullable unique field: nil, "" or a value
@@ -147,7 +173,7 @@ func verifC09(corrupt bool) {
 		for d := 0; d < 2; d++ {
 			linked := e == 0 && d == 0
 			if e == 1 && d == 1 {
-				linked = verifrt.Bool("link")
+				linked = !symPop || verifrt.Bool("link")
 			}
 			if linked {
 				links.link[e][d] = true
@@ -277,6 +303,32 @@ func verifC09(corrupt bool) {
 		}
 		return nil
 	})
+	second := 0
+	if pair {
+		second = verifrt.Choose("second", 5)
+	}
+	if err == nil && second > 0 {
+		// a further ghost entry; "ghosu" / "zy" sort directly next to "ghost" / "zz"
+		err = env.db.Update(nil, func(ctx MutateContext) error {
+			tx := ctx.Tx()
+			ghost2 := "ghosu"
+			switch second {
+			case 1:
+				return Path(tx, vRootPath, IndexesBucket, vEmpType, vFName).Put([]byte("zy"), []byte(ghost2))
+			case 2:
+				return Path(tx, vRootPath, IndexesBucket, vEmpType, vFRoles).GetOrCreateBucket(vRoleNames[r]).Put(typed(ghost2), nil)
+			case 3:
+				return env.dept.GetEntityBucket(tx, []byte(vDeptIds[d])).GetOrCreateBucket(vFEmps).Put(typed(ghost2), nil)
+			case 4:
+				return env.emp.GetEntityBucket(tx, []byte(vIds[e])).GetOrCreateBucket(vFDepts).Put(typed(ghost2), nil)
+			}
+			return nil
+		})
+	}
+	nInjected := 1
+	if second > 0 {
+		nInjected = 2
+	}
 	verifrt.Assert(err == nil, "C09 corruption injected")
 	if !applicable {
 		verifrt.Outside("corruption class not applicable to this population")
@@ -291,16 +343,16 @@ func verifC09(corrupt bool) {
 	if !fixMode {
 		s, err = env.checkIntegrity(false)
 		verifrt.Assert(err == nil, "C09 check mode runs")
-		verifrt.Assert(s.total >= 1, "C09 check mode reports the injected inconsistency")
+		verifrt.Assert(s.total >= nInjected, "C09 check mode reports every injected inconsistency")
 		verifrt.Assert(s.fixed == 0, "C09 check mode reports nothing as fixed")
 		env.view(func(tx *bbolt.Tx) {
 			verifrt.Assert(verifDumpEqual(before, verifDump(tx)), "C09 check mode leaves the database unchanged")
 		})
 		return
 	}
-	s, err = env.checkIntegrity(true)
+	s, err = env.checkIntegrityW(true, pair && verifrt.Bool("write.first"))
 	verifrt.Assert(err == nil, "C09 fix mode runs")
-	verifrt.Assert(s.total >= 1, "C09 fix mode reports the injected inconsistency")
+	verifrt.Assert(s.total >= nInjected, "C09 fix mode reports every injected inconsistency")
 	s2, err := env.checkIntegrity(false)
 	verifrt.Assert(err == nil && s2.total == 0, "C09 a re-check immediately after one fix run is clean")
 	checkMirrors("C09 after fix")
@@ -313,3 +365,8 @@ func VerifC09_ConsistentIsClean() { verifC09(false) }
 // one corruption of any class: reported; check mode changes nothing; one fix
 // run converges
 func VerifC09_IntegrityCheck() { verifC09(true) }
+
+// two corruptions at once on a fixed population: every class next to a ghost
+// entry of each family (same family: adjacent keys, so a repair that deletes
+// under its own cursor must not skip the neighbour)
+func VerifC09_TwoCorruptions() { verifC09P(true, false, true) }
